@@ -130,7 +130,7 @@ func vGoid() uint64 {
 	return id
 }
 
-// vOnMain: is this the goroutine that runs the harness (always, in the engine)?
+// vOnMain: is this the goroutine that runs the harness (always, in the engine: the rank list is swapped around queued goroutines)?
 func vOnMain() bool { return vMainGoid == 0 || vGoid() == vMainGoid }
 
 var vRankNames = [...]string{"Stream.writeLock", "Association.lock", "Stream.lock", "Association.timerMu"}
@@ -187,8 +187,25 @@ func vLockRelease(rank int) {
 // call may run to completion before the first continues. Every such schedule is a real one
 // (the second goroutine simply gets the processor there); the choice is part of the replay
 // vector, so the native replay takes the same switch.
+// vHarnessGoroutine: the goroutine that runs the harness function, as opposed to one it
+// queued (vGo); in the engine too.
+func vHarnessGoroutine() bool { return vOnMain() }
+
+// vPreemptIgnoreRank: a lock rank the first call may hold at the switch because the second
+// call never takes it (-1: none). Blocking writes hold Stream.writeLock (rank 0) throughout.
+var vPreemptIgnoreRank = -1
+
+func vHoldsOnlyIgnoredRank() bool {
+	for _, h := range vHeldRanks {
+		if h != vPreemptIgnoreRank {
+			return false
+		}
+	}
+	return true
+}
+
 func vMaybePreempt() {
-	if vPreemptBody != nil && vOnMain() && len(vHeldRanks) == 0 {
+	if vPreemptBody != nil && vHarnessGoroutine() && vHoldsOnlyIgnoredRank() {
 		if vPick(2) == 1 {
 			f := vPreemptBody
 			vPreemptBody = nil
